@@ -221,8 +221,8 @@ Section Step.
     intros OK Hi Hs Hne Hl Hn Hc Hk. destruct (PL cd) as [ci [Hci Hf]]; [cbn; auto|].
     unfold invert, call, dom_complement. rewrite Hi. cbn [o_data dobj new_obj o_cls o_name].
     rewrite (cname_unstarred' x Hs). change dom_fuel with (S (S 6)).
-    assert (Hol : obj_len (heap (r_st r)) i = Ok l).
-    { unfold obj_len. rewrite Hi. cbn. destruct (Z.ltb_spec l 0); [lia | reflexivity]. }
+    assert (Hol : obj_length (heap (r_st r)) i = Ok l).
+    { unfold obj_length. rewrite Hi. reflexivity. }
     destruct (dom_create_complement ct cd ci Hci 6 (r_st r) x l i (proj1 OK) Hs Hne Hn Hol Hc Hk) as [st1 [E1 E2]].
     assert (Es : st1 = r_st r) by (destruct E1 as [->| ->]; [reflexivity | apply (collect_id ct _ OK)]).
     subst st1. unfold star. rewrite E2, (create_new ct _ cd ci _ _ _ _ _ Hci Hf). reflexivity.
